@@ -77,6 +77,10 @@ def plan(tier, seed):
             yield {'sheets': [[pat, [1, 2], 3], None, [q, [0, 0], 4]]}          # empty between, narrower after wider
             yield {'sheets': [[q, [0, 0], 5], [pat, [2, 1], 6]]}                # wider after narrower
             yield {'sheets': [[pat, [3, 0], 7], [q, [0, 3], 8], [pat ^ 511, [0, 0], 9]]}
+            if pat % 16 in (3, 6) or pat in (1, 511):
+                # a chart sheet behind the first / the second worksheet
+                yield {'sheets': [[pat, [0, 0], 1], [q, [1, 1], 2], [pat ^ 511, [0, 0], 3]], 'chart': 0}
+                yield {'sheets': [[pat, [0, 0], 4], [q, [1, 1], 5], [pat ^ 511, [0, 0], 6]], 'chart': 1}
         yield {'sheets': [None]}
         yield {'sheets': [None, None]}
     return [{'name': 'single-sheet-layouts', 'cases': single(), 'runner': 'run_cases', 'chunk': 24},
@@ -102,6 +106,13 @@ def build(case):
                 else:
                     ws[addr] = v
         planted.append(cells)
+        if case.get('chart') == i:
+            # a chart sheet behind worksheet i: a tab that is no worksheet, the titles and positions of the others stay
+            from openpyxl.chart import BarChart, Reference
+            cs = wb.create_chartsheet('Chart')
+            chart = BarChart()
+            chart.add_data(Reference(wb.worksheets[0], min_col=1, min_row=1, max_row=2))
+            cs.add_chart(chart)
     bio = io.BytesIO()
     wb.save(bio)
     return bio, planted
